@@ -1,4 +1,5 @@
 import EmmyVerif.Lemmas.IndexModule
+import EmmyVerif.Lemmas.IndexPattern
 /-!
 # C33 — require paths resolve to the files the configured patterns select
 
@@ -77,6 +78,27 @@ theorem C33_no_match_none (cfg : Config) (ops : List Op) (q : List Char)
     rcases hor with hp | ⟨_, n, hl⟩
     · rw [hp] at hn; simp [leading] at hn
     · rw [hn] at hl; cases hl
+
+/-- **C33 single-`?` templates.** A configured pattern `pre?suf` (`?.lua`, `?/init.lua`, `src/?.lua` …)
+selects exactly the paths `pre ++ m ++ suf` and yields the module path `m` (no line break in `m`). -/
+theorem C33_single_template (pre suf path mid : List Char) :
+    matchPattern [pre, suf] path = some mid ↔
+      (path = pre ++ mid ++ suf ∧ mid.all (fun c => c ≠ '\n') = true) :=
+  matchPattern_single pre suf path mid
+
+/-- the default patterns are tried longest template first -/
+theorem C33_default_pattern_order :
+    compilePatterns ["?.lua".toList, "?/init.lua".toList] = [[[], "/init.lua".toList], [[], ".lua".toList]] := by
+  decide
+
+/-- **C33 `?/init.lua` beats `?.lua`.** With the default patterns `x/init.lua` is module `x`, not `x/init`. -/
+theorem C33_init_wins (x : List Char) (hx : x.all (fun c => c ≠ '\n') = true) :
+    matchPatterns (compilePatterns ["?.lua".toList, "?/init.lua".toList]) (x ++ "/init.lua".toList) = some x := by
+  rw [C33_default_pattern_order]
+  simp only [matchPatterns]
+  have : matchPattern [[], "/init.lua".toList] (x ++ "/init.lua".toList) = some x :=
+    (matchPattern_single [] _ _ x).mpr ⟨by simp, hx⟩
+  rw [this]
 
 /-! Non-vacuity and behaviour on concrete instances (tests, labelled as such). -/
 
